@@ -30,7 +30,7 @@ PASSED=$(grep -E "^test result: ok" "$LOG.suite" | sed -E 's/.* ([0-9]+) passed.
 res "build=$B demo_clean=$D0 demo_patched=$D1 suite=$S passed=$PASSED"
 if [ $B -eq 0 ] && [ $D0 -eq 0 ] && [ $D1 -ne 0 ] && [ $S -eq 0 ] && [ "$PASSED" = "35" ]; then
   mkdir -p "$DST"
-  git diff -- src > "$DST/patch.diff"
+  git add -N src; git diff -- src > "$DST/patch.diff"
   if [ $DEMO_KIND = rs ]; then cp "$SRC/demo$N.rs" "$DST/demo.rs"; else cp "$SRC/demo$N.diff" "$DST/demo.diff"; fi
   [ -f "$SRC/README.md" ] && cp "$SRC/README.md" "$DST/README.agent.md"
   cat > "$DST/meta.json" <<EOM
